@@ -118,6 +118,7 @@ class BinningBase:
 
     @staticmethod
     def from_dict(a_dict: Dict[str, Any]) -> BinningBase:
+        a_dict = dict(a_dict)  # (The caller's document is left as it is)
         binning_type = a_dict.pop("binning_type", "StaticBinning")
         klass = find_subclass(BinningBase, binning_type)
         return klass(**a_dict)
